@@ -26,7 +26,7 @@ def run(res, pool, tier, seed):
                                     NSHARD=400 if tier == "quick" else 40, NXCHECK=1000)))
     engine.run_jobs(res, jobs, pool)
     import traces
-    traces.run_for(res, ["unit_tests", "driver"] if tier != "quick" else ["unit_tests"], {"C02"}, seed=seed + 1, nsessions=2500)
+    traces.run_for(res, ["unit_tests", "driver"] if tier != "quick" else ["unit_tests"], {"C02"}, seed=seed + 1, nsessions=250 if tier == "quick" else 2500)
 
 
 def replay_case(case, tag, rng, tier):
